@@ -350,6 +350,22 @@ func (i Interval) Expanded(margin float64) Interval {
 	if result.Lo <= -math.Pi {
 		result.Lo = math.Pi
 	}
+	// The tests above allow for one rounding error, but the length and both
+	// endpoints are each rounded, at magnitudes up to 2*Pi. When the exact
+	// result is within a few ulps of the full circle (or of the empty
+	// interval) the rounded endpoints can still meet or cross, which would
+	// turn an almost full interval into a single point (or an almost empty one
+	// into an almost full one). The endpoints have crossed exactly when the
+	// result no longer nests with the original interval.
+	// (The original is compared in normalized form: -Pi is stored as Pi.)
+	orig := IntervalFromEndpoints(i.Lo, i.Hi)
+	if margin >= 0 {
+		if !result.ContainsInterval(orig) {
+			return FullInterval()
+		}
+	} else if !orig.ContainsInterval(result) {
+		return EmptyInterval()
+	}
 	return result
 }
 
